@@ -110,6 +110,9 @@ def expected(ld):
             sigs = []
             for j, cs, uva, uvk, hva, hvk in order:
                 csig = sigtools.signature(ld.callees[j])
+                if pr.route == 'helper':
+                    # what the shared helper forwards to once it has been handed this callee
+                    csig = S.mask(S.forwards(S.signature(ld.module.APPLY), csig), 1)
                 sigs.append(S.forwards(own, csig, cs.npos, *cs.names, use_varargs=uva, use_varkwargs=uvk,
                                        hide_args=hva, hide_kwargs=hvk, partial=pr.route == 'partial'))
             res = S.merge(*sigs)
